@@ -108,7 +108,40 @@ def run_c12(run_, rng, tier, exe):
             return "/dev/null was opened"
         return None
     _, b2, m2 = l2_family(run_, exe, scns, judge, cls=lambda s, r: "candidates " + "+".join(s["present"]) + " p%d" % s["strip"])
-    return bad + b2, mism + m2
+    # hunk lines that read like file headers: the first line of the file is a comment naming another file that exists
+    # ("-- d.txt helpers" removed gives "--- d.txt helpers"; "++ d.txt" added gives "+++ d.txt"); the file the headers
+    # name is the one that is patched, the other one is left alone
+    hl = []
+    for _ in range(60 if q else 800):
+        decoy = rng.choice(["d.txt", "sub/d.txt", "util"])
+        first = rng.choice(["-- %s helpers" % decoy, "-- %s" % decoy, "-- a/%s\t2024-01-01" % decoy, "++ %s" % decoy])
+        rest_ = [(t.replace("\r", "r"), "L") for t, nl in gen.rand_file(rng, maxlen=8, small=True)]
+        a = [(first, "L")] + rest_ + [("tail", "L")]
+        ops = [("-", a[0]), ("+", (rng.choice(["-- changed", "++ %s" % decoy, "x"]), "L"))] + [(" ", l) for l in a[1:-1]] + [("-", a[-1]), ("+", ("TAIL", "L"))]
+        if first.startswith("++"):
+            ops = [("+", (first, "L"))] + [(" ", l) for l in a[1:-1]] + [("-", a[-1]), ("+", ("TAIL", "L"))]
+            a = a[1:]
+        b = [l for o, l in ops if o != "-"]
+        hs = gen.hunks_from_ops(ops, rng.choice([0, 0, 1, 3]))
+        fmt = rng.choice(["unified", "unified", "git"])
+        text = (emit.emit_git("t", "t", hs) if fmt == "git" else
+                emit.emit_unified("a/t", "b/t", hs, "2024-01-01 00:00:00.000000000 +0000", "2024-01-02 00:00:00.000000000 +0000"))
+        tree = {"t": ("R", 0o644, emit.file_bytes(a)), "p.diff": ("R", 0o644, text)}
+        scen.add_parents(tree, decoy); tree[decoy] = ("R", 0o644, emit.file_bytes(a))
+        o = {"p": 1, "i": "p.diff"}
+        if rng.random() < 0.3:
+            o["u"] = 1
+        hl.append(dict(tree=tree, opts=o, umask=0o022, decoy=decoy, want=emit.file_bytes(b), secs=[]))
+
+    def judge_hl(s, r):
+        after = tree_no_meta(r["tree"])
+        if after.get(s["decoy"]) != s["tree"][s["decoy"]]:
+            return "a hunk line that reads like a header made %s the file that was patched" % s["decoy"]
+        if after.get("t", (None, None, None))[2] != s["want"] or r["exit"] != 0:
+            return "the file the headers name (t) was not patched to the new version (exit %d)" % r["exit"]
+        return None
+    _, b3, m3 = l2_family(run_, exe, hl, judge_hl, cls=lambda s, r: "header-like hunk line exit %d" % r["exit"])
+    return bad + b2 + b3, mism + m2 + m3
 
 
 # ---------------------------------------------------------------- C13
